@@ -86,7 +86,29 @@ func Harness_C16_servers_reset() {
 	live := NewServers(cfg1)
 	ghostClosed = 0
 	ghostClosedAddrs = nil
+	// a server that stays configured stays registered (the same object: its listener keeps serving)
+	// at every moment of the update, observed after every change of the registry's sync.Map
+	beforeSrv := map[string]*server{}
+	for _, a := range addrs {
+		beforeSrv[a] = live.Get(a)
+	}
+	lost := 0
+	verifOnSyncMapWrite(func() {
+		for _, a := range addrs {
+			stays := false
+			for _, o := range cfg2 {
+				if o.Addr == a {
+					stays = true
+				}
+			}
+			if beforeSrv[a] != nil && stays && live.Get(a) != beforeSrv[a] {
+				lost++
+			}
+		}
+	})
 	live.Reset(cfg2)
+	verifOnSyncMapWrite(nil)
+	verifAssert("C16.servers.survivor-registered-throughout-reset", lost == 0)
 	verifRunSpawned()
 	fresh := NewServers(cfg2)
 	removed := 0
